@@ -88,6 +88,9 @@ var lastPanic string
 type opFn func(args []string) string
 
 var ops = map[string]opFn{}
+
+// reemit: ops whose case line carries oracle records that must be recomputed on replay
+var reemit = map[string]func(args []string){}
 var gens = map[string]func(tier string, r *rng){}
 
 func runOp(op string, args []string) string {
@@ -130,7 +133,11 @@ func main() {
 			if len(f) == 0 {
 				continue
 			}
-			emit(f[0], f[1:]...)
+			if re, ok := reemit[f[0]]; ok {
+				re(f[1:])
+			} else {
+				emit(f[0], f[1:]...)
+			}
 		}
 	default:
 		fatalf("unknown subcommand")
